@@ -66,7 +66,7 @@ impl Exec for UnaryOperation {
             UnaryOperator::Indirection => indirection::exec(var),
             UnaryOperator::FunctionCall => var.into_function().unwrap().exec(interpreter)?,
             UnaryOperator::Collect => collect::exec(var)?,
-            UnaryOperator::Iter => iter::exec(var),
+            UnaryOperator::Iter => iter::exec(var, self.instruction.return_type()),
             UnaryOperator::All
             | UnaryOperator::Any
             | UnaryOperator::BitAnd
